@@ -30,7 +30,7 @@ import vlib
 
 CLOCKS = ["blockchain/blockchain.go"]
 EMBEDDED = ("timelock", "multisig", "oraclelock", "refundlock", "voting")
-BUGS = ("commit_on_fail", "stale_env", "no_refund", "no_balance_check", "no_sub_refund")
+BUGS = ("commit_on_fail", "stale_env", "no_refund", "no_balance_check", "no_sub_refund", "subdeploy_forgets_balance")
 
 
 def dev(c, op):
@@ -117,6 +117,43 @@ def sample_sandwiches(exports, rnd, budget):
     return res
 
 
+def is_prefund(e):
+    return e["path"][-1]["pair"].startswith("pf-")
+
+
+def sample_prefunds(exports, rnd, budget):
+    """operations that create an address which already holds coins: per (lifecycle state, way of pre-funding),
+    sub-deployments and well-formed operations with enough gas first"""
+    def rank(e):
+        last = e["path"][-1]
+        return (last["arg"] != "valid", last["gas"] != "enough", last["gas"] != "enough" and last["m"] != "deploy", dev(e["c"], last))
+    groups = collections.defaultdict(list)
+    for e in exports:
+        last = e["path"][-1]
+        # (a top-level deployment is the same operation in every lifecycle state: one group per contract)
+        groups[(e["c"], "" if last["m"] == "deploy" else json.dumps(e["path"][:-1]), last["pair"], last["m"])].append(e)
+    keys = sorted(groups)
+    rnd.shuffle(keys)
+    for k in keys:
+        rnd.shuffle(groups[k])
+        lst = sorted(groups[k], key=lambda e: (rank(e), len(e["path"])))
+        # the best candidate with enough gas, then the best one with too little gas, then the rest
+        small = next((e for e in lst if e["path"][-1]["gas"] != "enough"), None)
+        if small is not None:
+            lst.remove(small)
+            lst.insert(1, small)
+        groups[k] = lst
+    res, i = [], 0
+    while len(res) < budget and keys:
+        keys = [k for k in keys if i < len(groups[k])]
+        for k in sorted(keys, key=lambda k: (rank(groups[k][i]) if i != 1 else (k[3] != "deploy",))):
+            res.append(groups[k][i])
+            if len(res) >= budget:
+                break
+        i += 1
+    return res
+
+
 def pick_walks(exports, n):
     best = {}
     for e in exports:
@@ -184,7 +221,9 @@ def signature(row):
     op = row.get("op", {})
     sig = "%s.%s" % (row.get("mainc", row.get("c", "?")), op.get("m", "?"))
     pair = op.get("pair", "no")
-    if pair.startswith("sw-"):
+    if pair.startswith("pf-"):
+        sig += "+prefunded-%s" % pair[3:]
+    elif pair.startswith("sw-"):
         sig += "+sandwich-%s" % pair[3:]
         if row.get("role") == "tail" and row.get("c") != row.get("mainc"):
             sig += ":" + str(row.get("c"))
@@ -248,14 +287,16 @@ def main(ctx):
     if not ro.ok:
         raise vlib.CheckError("scenario generator failed: %s" % (ro.error or "")[:1500])
     ro.exports.sort(key=lambda e: json.dumps(e, sort_keys=True))
-    budget = 900 if quick else 12000
-    cases = sample_cases([e for e in ro.exports if not is_sandwich(e)], rnd, budget)
+    budget = 830 if quick else 12000
+    cases = sample_cases([e for e in ro.exports if not is_sandwich(e) and not is_prefund(e)], rnd, budget)
+    prefunds = sample_prefunds([e for e in ro.exports if is_prefund(e)], rnd, 110 if quick else 1500)
     sandwiches = sample_sandwiches([e for e in ro.exports if is_sandwich(e)], rnd, 300 if quick else 4000)
     # scenarios behind the > 30000 blocks of waiting (thorough only): a bounded number, cheapest deviations first
     isdeep = lambda c: any(o["m"] == "longwait" for o in c["path"][:-1])
     deep = sorted([c for c in cases if isdeep(c)], key=lambda c: (dev(c["c"], c["path"][-1]), json.dumps(c["path"][-1])))
     cases = [c for c in cases if not isdeep(c)] + deep[:150]
     cases += [c for c in sandwiches if not isdeep(c)] + [c for c in sandwiches if isdeep(c)][:60]
+    cases += [c for c in prefunds if not isdeep(c)]
     nwalk = 30 if quick else 400
     rs = vlib.tlc(ctx, "ContractOps.tla", "MC_ContractOps_sim.cfg", workers=1, timeout=1800,
                   extra=["-simulate", "num=%d" % (nwalk * 2), "-depth", "24", "-seed", str(ctx.seed)], simulate=True)
@@ -263,8 +304,8 @@ def main(ctx):
         raise vlib.CheckError("simulation of the scenario generator failed: " + (rs.error or "")[:1500])
     rs.exports.sort(key=lambda e: json.dumps(e, sort_keys=True))
     walks = pick_walks(rs.exports, nwalk)
-    ctx.log("scenarios: %d transitions of the lifecycle graph (%d states) exported, %d selected (%d sandwich blocks); %d random walks"
-            % (len(ro.exports), ro.distinct, len(cases), len(sandwiches), len(walks)))
+    ctx.log("scenarios: %d transitions of the lifecycle graph (%d states) exported, %d selected (%d sandwich blocks, %d pre-funded creations); %d random walks"
+            % (len(ro.exports), ro.distinct, len(cases), len(sandwiches), len(prefunds), len(walks)))
     if not cases or not walks:
         raise vlib.CheckError("no scenarios exported (dead generator)")
     cpath = ctx.path("cases.ndjson")
@@ -319,6 +360,16 @@ def main(ctx):
         cnt["stake_move"] += bool(e["sh"]["moved"]) and x["rc"]["success"]
         cnt["transfer"] += len(e["req"]) >= 2 and x["rc"]["success"]
         cnt["pair"] += x["mid"]
+        subdep = bool(e["deployed"]) or bool(e["sh"].get("deployed"))
+        created = x["tx"]["kind"] == "deploy" or subdep
+        main = x.get("role") != "tail"
+        cnt["subdeploy_ok"] += x["tx"]["kind"] == "call" and x["rc"]["success"] and subdep
+        cnt["prefunded_toplevel_deploy_ok"] += bool(x.get("prefunded")) and main and x["tx"]["kind"] == "deploy" and x["rc"]["success"]
+        cnt["prefunded_toplevel_deploy_failed"] += bool(x.get("prefunded")) and main and x["tx"]["kind"] == "deploy" and not x["rc"]["success"]
+        cnt["prefunded_embedded_deploy_ok"] += bool(x.get("prefunded")) and main and x["tx"]["kind"] == "deploy" and x["rc"]["success"] and not x["tx"]["wasm"]
+        cnt["prefunded_subdeploy_ok"] += bool(x.get("prefunded")) and main and x["tx"]["kind"] == "call" and x["rc"]["success"] and subdep
+        cnt["prefunded_in_same_block"] += bool(x.get("prefunded")) and main and x["op"]["pair"] in ("pf-mid", "pf-mid-emb") and x["rc"]["success"] and created
+        cnt["funded_in_same_tx_subdeploy_ok"] += x["op"]["m"] == "payspawn" and main and x["rc"]["success"] and subdep
         cnt["fail_after_writes"] += (not x["rc"]["success"]) and e["sh"]["ran"] and e["sh"]["ok"] and bool(e["sh"]["writes"])
         cnt["escrow_refund"] += (not x["rc"]["success"]) and bool(x["tx"]["amount"]) and (x["tx"]["kind"] == "call" or x["tx"]["wasm"])
         cnt["out_of_gas"] += (not x["rc"]["success"]) and "gas" in x["err"].lower()
@@ -346,7 +397,9 @@ def main(ctx):
                 cnt["sandwich_outside_change_between"] += moved and any(y["ev"] == "Plain" for y in blkl) and lastx["rc"]["success"] and not lastx["tx"]["wasm"]
                 cnt["sandwich_own_sender_paid"] += moved and any(q["a"] == first["tx"]["from"] for q in first["eff"]["req"]) and lastx["rc"]["success"] and not lastx["tx"]["wasm"]
             blkl = []
-    need = ["sandwich_two_successes", "sandwich_three_contract_txs", "sandwich_first_ok_last_fails", "sandwich_embedded_and_wasm",
+    need = ["subdeploy_ok", "prefunded_toplevel_deploy_ok", "prefunded_toplevel_deploy_failed", "prefunded_embedded_deploy_ok",
+            "prefunded_subdeploy_ok", "prefunded_in_same_block", "funded_in_same_tx_subdeploy_ok"]
+    need += ["sandwich_two_successes", "sandwich_three_contract_txs", "sandwich_first_ok_last_fails", "sandwich_embedded_and_wasm",
             "sandwich_env_move_then_embedded_success", "sandwich_outside_change_between", "sandwich_own_sender_paid"]
     need += ["wasm_ok", "wasm_fail", "subcall", "wasm_transfer", "wasm_burn", "burn", "term", "stake_move", "transfer", "pair", "fail_after_writes", "escrow_refund", "out_of_gas"]
     need += [(c, True) for c in EMBEDDED] + [(c, False) for c in EMBEDDED]
